@@ -1,3 +1,310 @@
-/- Property theorems for C09 — to be filled in. -/
+/-
+  C09 — A message whose handling committed is never handled again, even after restart.
+
+  Model: `Stab.Dedup` (bloom filter with the real byte/bit arithmetic over an abstract hash-position
+  function; `_handle_message` duplicate check for both settings of `dedup_trust_negative_cache`;
+  `_hydrate_deduplicator`; restart / rotation / peer mark / retention cleanup).
+  Generated: `Stab.Gen.TxnShapes` (which handler commits mark the source message).
+
+  Helper lemmas: `Stab/Lemmas/C09.lean`; shared vocabulary over TxnShapes: `Stab/Lemmas/TxnShapes.lean`.
+
+  Vocabulary used below (defined in Lemmas/C09):
+    `WF b`              the bit array has `ceil(size/8)` bytes and `size > 0` (true of every constructed filter)
+    `bfold pos b ops`   the filter after a list of filter ops (`mark`, `query`, `hyd`, `reset`, `fill`)
+    `sinceReset ops`    the ids marked or hydrated since the last `reset` in `ops`
+    `cleansUp op id`    the op is a retention cleanup that deletes `id` from processed_messages
+    `blindSpot op id`   the op is `handle id commitRaise` or `peerMarks id` — the two ways the store can learn a mark
+                        the in-memory filter does not see
+    `SyncedFor pos s id` the filter is well-formed and, if authoritative, tests positive for `id` whenever `id` is processed
+-/
+import Stab.Model.Dedup
+import Stab.Lemmas.C09
+import Stab.Lemmas.TxnShapes
+
 namespace Stab.Props.C09
+open Stab Stab.Dedup
+
+/-! ### the filter -/
+
+/-- **No false negatives.** After ANY sequence of mark / hydrate / reset (and query) operations on a
+    freshly constructed filter of any positive size, with ANY hash-position function, every id that was
+    marked or hydrated since the last reset tests positive — through the real index arithmetic
+    (`pos % size`, byte `// 8`, bit `% 8`, `|=`, `&`). -/
+theorem bloom_no_false_negative (pos : Id → List Nat) (size : Nat) (hs : 0 < size) (ops : List BOp) (id : Id)
+    (h : id ∈ sinceReset ops) : (bfold pos (Bloom.fresh size) ops).maybeSeen pos id = true := by
+  have gen : ∀ (ops : List BOp) (b : Bloom) (acc : List Id), WF b → (∀ x ∈ acc, b.maybeSeen pos x = true) →
+      WF (bfold pos b ops) ∧ ∀ x ∈ ops.foldl (fun acc op => match op with
+          | .mark i => i :: acc | .hyd l => l ++ acc | .reset => [] | _ => acc) acc,
+        (bfold pos b ops).maybeSeen pos x = true := by
+    intro ops
+    induction ops with
+    | nil => intro b acc hw ha; exact ⟨hw, ha⟩
+    | cons op ops ih =>
+      intro b acc hw ha
+      simp only [bfold, List.foldl_cons]
+      cases op with
+      | mark i =>
+        apply ih _ _ (wf_mark pos b i hw)
+        intro x hx
+        rcases List.mem_cons.mp hx with h | h
+        · subst h; exact mark_then_seen pos b x hw
+        · exact mark_mono pos b i x (ha x h)
+      | query i => exact ih _ _ hw ha
+      | hyd l =>
+        apply ih _ _ (wf_hydrate pos b l hw)
+        intro x hx
+        rcases List.mem_append.mp hx with h | h
+        · exact hydrate_seen pos b l x hw h
+        · exact hydrate_mono pos b l x (ha x h)
+      | reset =>
+        apply ih _ _ (wf_reset b hw)
+        intro x hx; cases hx
+      | fill => exact ih _ _ hw ha
+  exact (gen ops _ [] (wf_fresh size hs) (by intro x hx; cases hx)).2 id h
+
+/-- **`reset()` revokes authority** (and empties the filter's counter) — whatever the filter held. -/
+theorem reset_revokes_authority (b : Bloom) : b.reset.auth = false ∧ b.reset.count = 0 := ⟨rfl, rfl⟩
+
+/-- after a rotation the filter is authoritative exactly when the store's ids fitted its capacity -/
+theorem rotate_authority (pos : Id → List Nat) (c : Cfg) (s : State) :
+    (step pos c s .rotate).1.bloom.auth = decide (s.store.length ≤ c.cap) := by
+  simp only [step, rotateBloom, hydrateFromStore]
+  by_cases h : s.store.length > c.cap
+  · have h2 : ¬ s.store.length ≤ c.cap := by omega
+    simp only [h, if_true, h2, decide_false]; rfl
+  · have h2 : s.store.length ≤ c.cap := by omega
+    simp only [h, if_false, h2, decide_true]; rfl
+
+/-- **Hydration grants authority only when complete.** `_hydrate_deduplicator` on a non-authoritative
+    filter (fresh, or just reset): the result is authoritative iff the processed ids fit the capacity, and
+    when it is authoritative EVERY processed id tests positive. -/
+theorem hydrate_grants_authority_only_when_complete (pos : Id → List Nat) (cap : Nat) (st : List Id) (b : Bloom)
+    (hw : WF b) (hna : b.auth = false) :
+    ((hydrateFromStore pos cap st b).auth = true ↔ st.length ≤ cap) ∧
+    ((hydrateFromStore pos cap st b).auth = true → ∀ id ∈ st, (hydrateFromStore pos cap st b).maybeSeen pos id = true) := by
+  refine ⟨?_, fun ha id hid => hydrateFromStore_seen pos cap st b id hw hna hid ha⟩
+  unfold hydrateFromStore
+  by_cases h : st.length > cap
+  · simp only [h, if_true, hna]
+    constructor
+    · intro x; cases x
+    · intro x; omega
+  · simp only [h, if_false]
+    constructor
+    · intro _; omega
+    · intro _; rfl
+
+/-! ### the processor
+
+  `Committed pos c s id` (Lemmas/C09): `id` is in processed_messages, the filter is well-formed, and — only when
+  `dedup_trust_negative_cache` is on — an authoritative filter tests positive for `id`.
+-/
+
+/-- **Once committed, never dispatched again** (the inductive core). From ANY state in which `id` is committed,
+    through ANY sequence of deliveries of any messages with any handler outcome, restarts, rotations (forced, by
+    fill, by age), peer marks and retention sweeps that do not delete `id` itself, with the option off or on:
+    the handler is never invoked for `id` again, and `id` stays committed. -/
+theorem committed_stays (pos : Id → List Nat) (c : Cfg) (hsz : 0 < c.size) (s : State) (id : Id) (ops : List Op)
+    (h : Committed pos c s id) (hc : ∀ op ∈ ops, cleansUp op id = false) :
+    runCount (run pos c s ops) id = runCount s id ∧ Committed pos c (run pos c s ops) id := by
+  induction ops generalizing s with
+  | nil => exact ⟨rfl, h⟩
+  | cons op ops ih =>
+    obtain ⟨h1, h2⟩ := step_keeps pos c hsz s op id h (hc op (List.mem_cons_self ..))
+    obtain ⟨h3, h4⟩ := ih (step pos c s op).1 h2 (fun o ho => hc o (List.mem_cons_of_mem _ ho))
+    exact ⟨by simp only [run]; rw [h3, h1], h4⟩
+
+/-- **Trust off (the default): unconditional.** After ANY history `ops1`, a delivery of `id` whose handling
+    committed the processed mark — in the handler's own commit (`commitReturn`, `commitRaise`: even when the
+    handler raises afterwards) or through the processor's mark (`plainReturn`) — is never followed by another
+    handler invocation for `id`, whatever happens later (`ops2`: redeliveries at any point, restarts, rotations,
+    other workers' marks), short of a retention sweep deleting the record. -/
+theorem committed_never_rerun (pos : Id → List Nat) (c : Cfg) (hsz : 0 < c.size) (ht : c.trust = false)
+    (ops1 : List Op) (id : Id) (o : Outcome) (aged : Bool) (ho : o ≠ .raiseBefore) (ops2 : List Op)
+    (hc : ∀ op ∈ ops2, cleansUp op id = false) :
+    let s1 := (step pos c (run pos c (init c) ops1) (.handle id o aged)).1
+    runCount (run pos c s1 ops2) id = runCount s1 id := by
+  intro s1
+  have hw0 : WF (init c).bloom := wf_fresh c.size hsz
+  have hw1 : WF (run pos c (init c) ops1).bloom := wf_run pos c hsz _ ops1 hw0
+  have hcom : Committed pos c s1 id :=
+    ⟨handled_is_committed pos c _ id o aged ho, wf_step pos c hsz _ _ hw1, fun h => by rw [ht] at h; cases h⟩
+  exact (committed_stays pos c hsz s1 id ops2 hcom hc).1
+
+/-- the same for a record written by another worker: with the option off, a message another worker marked
+    processed is never handled here -/
+theorem peer_mark_respected (pos : Id → List Nat) (c : Cfg) (hsz : 0 < c.size) (ht : c.trust = false)
+    (ops1 : List Op) (id : Id) (ops2 : List Op) (hc : ∀ op ∈ ops2, cleansUp op id = false) :
+    let s1 := (step pos c (run pos c (init c) ops1) (.peerMarks id)).1
+    runCount (run pos c s1 ops2) id = runCount s1 id := by
+  intro s1
+  have hw1 : WF (run pos c (init c) ops1).bloom := wf_run pos c hsz _ ops1 (wf_fresh c.size hsz)
+  have hcom : Committed pos c s1 id :=
+    ⟨by simp [s1, step, mem_storeAdd], wf_step pos c hsz _ _ hw1, fun h => by rw [ht] at h; cases h⟩
+  exact (committed_stays pos c hsz s1 id ops2 hcom hc).1
+
+/-- **Trust on: under what the option documents** ("this process is the store's only writer", i.e. the
+    filter saw the mark). If the delivery that committed `id` RETURNED (`commitReturn` / `plainReturn`: the
+    processor then marks the filter), no later delivery of `id` runs the handler — again for every later history,
+    including other messages' handlers raising after their commit and peers marking other or the same ids. -/
+theorem committed_never_rerun_trusting (pos : Id → List Nat) (c : Cfg) (hsz : 0 < c.size)
+    (ops1 : List Op) (id : Id) (o : Outcome) (aged : Bool) (ho : o = .commitReturn ∨ o = .plainReturn) (ops2 : List Op)
+    (hc : ∀ op ∈ ops2, cleansUp op id = false) :
+    let s1 := (step pos c (run pos c (init c) ops1) (.handle id o aged)).1
+    runCount (run pos c s1 ops2) id = runCount s1 id := by
+  intro s1
+  have hw1 : WF (run pos c (init c) ops1).bloom := wf_run pos c hsz _ ops1 (wf_fresh c.size hsz)
+  have hne : o ≠ .raiseBefore := by rcases ho with h | h <;> (subst h; intro hh; cases hh)
+  have hcom : Committed pos c s1 id := by
+    refine ⟨handled_is_committed pos c _ id o aged hne, wf_step pos c hsz _ _ hw1, ?_⟩
+    intro _ ha
+    have hs1 : s1 = (handleMsg pos c (ageState (run pos c (init c) ops1) aged) id o).1 := rfl
+    have hwa : WF (ageState (run pos c (init c) ops1) aged).bloom := age_wf _ aged hw1
+    cases hk : skips pos c (ageState (run pos c (init c) ops1) aged) id with
+    | true =>
+      -- skipped: the state is unchanged, and an authoritative trusted filter only skips on a positive
+      rw [hs1, handleMsg_skip pos c _ id o hk] at ha ⊢
+      unfold skips consultsStore at hk
+      simp only [Bool.and_eq_true, Bool.or_eq_true] at hk
+      rcases hk.1 with h | h
+      · exact h
+      · simp_all
+    | false =>
+      rw [hs1, handleMsg_run pos c _ id o hk]
+      rcases ho with h | h <;> subst h <;>
+        exact mark_then_seen pos _ id (wf_afterRotationCheck pos c _ hwa)
+  exact (committed_stays pos c hsz s1 id ops2 hcom hc).1
+
+/-- **Trust on, with proposed_fixes/F7.diff** (`markOnRaise`: `_handle_message` marks the filter when the handler
+    raises). Then the guarantee also covers a handler that committed and raised: every outcome that committed the
+    record is covered, as with the option off. Only a peer's mark stays outside (the option's documented contract). -/
+theorem committed_never_rerun_trusting_fixed (pos : Id → List Nat) (c : Cfg) (hsz : 0 < c.size) (hfix : c.markOnRaise = true)
+    (ops1 : List Op) (id : Id) (o : Outcome) (aged : Bool) (ho : o ≠ .raiseBefore) (ops2 : List Op)
+    (hc : ∀ op ∈ ops2, cleansUp op id = false) :
+    let s1 := (step pos c (run pos c (init c) ops1) (.handle id o aged)).1
+    runCount (run pos c s1 ops2) id = runCount s1 id := by
+  intro s1
+  have hw1 : WF (run pos c (init c) ops1).bloom := wf_run pos c hsz _ ops1 (wf_fresh c.size hsz)
+  have hcom : Committed pos c s1 id := by
+    refine ⟨handled_is_committed pos c _ id o aged ho, wf_step pos c hsz _ _ hw1, ?_⟩
+    intro _ ha
+    have hs1 : s1 = (handleMsg pos c (ageState (run pos c (init c) ops1) aged) id o).1 := rfl
+    have hwa : WF (ageState (run pos c (init c) ops1) aged).bloom := age_wf _ aged hw1
+    cases hk : skips pos c (ageState (run pos c (init c) ops1) aged) id with
+    | true =>
+      rw [hs1, handleMsg_skip pos c _ id o hk] at ha ⊢
+      unfold skips consultsStore at hk
+      simp only [Bool.and_eq_true, Bool.or_eq_true] at hk
+      rcases hk.1 with h | h
+      · exact h
+      · simp_all
+    | false =>
+      rw [hs1, handleMsg_run pos c _ id o hk]
+      have hwr := wf_afterRotationCheck pos c _ hwa
+      cases o with
+      | raiseBefore => exact absurd rfl ho
+      | commitRaise => simp only [onRaise, hfix, if_true]; exact mark_then_seen pos _ id hwr
+      | commitReturn => exact mark_then_seen pos _ id hwr
+      | plainReturn => exact mark_then_seen pos _ id hwr
+  exact (committed_stays pos c hsz s1 id ops2 hcom hc).1
+
+/-! ### counterexamples: where the statement is false of the model (= of the code) -/
+
+/-- the concrete setting of the witnesses: 64 bits, capacity 10, each id has one hash position -/
+def wpos : Id → List Nat := fun i => [i]
+
+/-- **F7 (within ONE process).** Option on, filter hydrated (authoritative): the handler commits its effects
+    and the processed mark, then raises; the message is redelivered and the handler RUNS AGAIN although the
+    mark is durable — the processor marks the filter only after the handler returns. -/
+theorem commit_then_raise_reruns_when_trusting :
+    let c : Cfg := { size := 64, cap := 10, trust := true }
+    let s1 := run wpos c (init c) [.restart, .handle 1 .commitRaise false]
+    (1 ∈ s1.store) ∧ runCount s1 1 = 1 ∧ runCount (run wpos c s1 [.handle 1 .commitReturn false]) 1 = 2 := by
+  decide
+
+/-- option on: a mark written by another worker is not seen (outside the option's documented contract) -/
+theorem peer_mark_reruns_when_trusting :
+    let c : Cfg := { size := 64, cap := 10, trust := true }
+    let s1 := run wpos c (init c) [.restart, .peerMarks 1]
+    (1 ∈ s1.store) ∧ runCount (run wpos c s1 [.handle 1 .commitReturn false]) 1 = 1 := by
+  decide
+
+/-- the retention sweep is a real exception (either setting): deleting the record re-opens the message -/
+theorem cleanup_reopens :
+    let c : Cfg := { size := 64, cap := 10, trust := false }
+    runCount (run wpos c (init c) [.restart, .handle 1 .commitReturn false, .cleanup [1], .handle 1 .commitReturn false]) 1 = 2 := by
+  decide
+
+/-! ### which handler commits carry the processed mark (generated from the handlers' source) -/
+
+open Stab.Gen.TxnShapes Stab.TxnShapes in
+/-- `TransactionHelper.execute_atomic*` still is "store_stage, mark_message_processed, push_message in one block" -/
+theorem txn_helper_shape : helperShapeOk = true := by decide
+
+open Stab.Gen.TxnShapes Stab.TxnShapes in
+/-- **The commits that store stage/workflow state WITHOUT marking the source message processed are exactly
+    these (reviewed).** Every other state-storing commit of every handler carries `mark_message_processed`
+    (or `source_message=`) in the same transaction, so "effects committed" implies "processed record committed".
+    For the listed ones the record is written by the processor after the handler returns; a crash in between
+    re-runs the handler on redelivery (they rely on their own status guards):
+      complete_stage 6,7,9,10   synthetic-stage / failure propagation paths of CompleteStage
+      run_task/error 1, result._handle_running   transient retry / polling re-push (finding F12)
+      start_stage on_stage 1, do_mark_error   wait-retry and planning-error paths
+      start_stage _start_if_ready 5   the claim commit, first of StartStage's two commits (finding F18)
+      start_waiting_workflows 0 -/
+theorem processed_mark_in_handler_commit :
+    ((entries.filter (fun e => isCommit e && storesState e && !marks e)).map key) =
+    [ ("handlers/complete_stage/handler.py", "CompleteStageHandler._handle_with_retry.on_stage", 6),
+      ("handlers/complete_stage/handler.py", "CompleteStageHandler._handle_with_retry.on_stage", 7),
+      ("handlers/complete_stage/handler.py", "CompleteStageHandler._handle_with_retry.on_stage", 9),
+      ("handlers/complete_stage/handler.py", "CompleteStageHandler._handle_with_retry.on_stage", 10),
+      ("handlers/run_task/error.py", "_handle_transient_retry.do_update_context", 1),
+      ("handlers/run_task/result.py", "_handle_running", 0),
+      ("handlers/start_stage/handler.py", "StartStageHandler.handle.on_stage", 1),
+      ("handlers/start_stage/handler.py", "StartStageHandler.handle.on_stage.do_mark_error", 0),
+      ("handlers/start_stage/handler.py", "StartStageHandler._start_if_ready", 5),
+      ("handlers/start_waiting_workflows.py", "StartWaitingWorkflowsHandler._handle_with_retry", 0) ] := by
+  decide
+
+open Stab.Gen.TxnShapes Stab.TxnShapes in
+/-- commits that only enqueue messages (no state, no mark): retry / re-poll pushes -/
+theorem push_only_commits :
+    ((entries.filter (fun e => isCommit e && !storesState e && pushes e && !marks e)).map key) =
+    [ ("handlers/base.py", "StabilizeHandler.start_next", 1),
+      ("handlers/run_task/error.py", "_handle_transient_retry.do_update_context", 0),
+      ("handlers/run_task/error.py", "_handle_transient_retry", 0) ] := by
+  decide
+
+open Stab.Gen.TxnShapes Stab.TxnShapes in
+/-- `queue.push` calls outside any transaction block: after such a push fails, a handler that already committed
+    its mark raises — the `commitRaise` outcome of the model is reachable in the real handlers -/
+theorem pushes_outside_transactions :
+    ((entries.filter (fun e => e.kind == "push_outside")).map key) =
+    [ ("handlers/add_multi_instance.py", "AddMultiInstanceHandler._handle_with_retry.on_stage", 1),
+      ("handlers/base.py", "StabilizeHandler.start_next", 0),
+      ("handlers/base.py", "StabilizeHandler.start_next", 2),
+      ("handlers/base.py", "StabilizeHandler.start_next", 3),
+      ("handlers/complete_workflow.py", "CompleteWorkflowHandler._determine_final_status", 0),
+      ("handlers/continue_parent_stage.py", "ContinueParentStageHandler._handle_before_phase", 2),
+      ("handlers/continue_parent_stage.py", "ContinueParentStageHandler._handle_after_phase", 2),
+      ("handlers/start_stage/handler.py", "StartStageHandler.handle.on_stage", 0),
+      ("handlers/start_stage/handler.py", "StartStageHandler.handle.on_stage", 2),
+      ("handlers/start_stage/handler.py", "StartStageHandler._start_if_ready", 2),
+      ("handlers/start_stage/handler.py", "StartStageHandler._start_if_ready", 6),
+      ("handlers/start_stage/orchestration.py", "StartStageOrchestrationMixin._cancel_deferred_choice_siblings", 0),
+      ("handlers/start_workflow.py", "StartWorkflowHandler._handle_with_retry.on_execution", 0) ] := by
+  decide
+
+/-! ### non-vacuity -/
+
+-- a committed state exists and the hypotheses of the theorems are satisfiable
+example : let c : Cfg := { size := 64, cap := 10, trust := true }
+    runCount (run wpos c (init c) [.restart, .handle 1 .commitReturn false, .handle 1 .commitReturn false,
+      .rotate, .handle 1 .plainReturn true, .restart, .handle 1 .commitRaise false]) 1 = 1 := by decide
+-- a filter op sequence with a reset in the middle: only the later ids are claimed
+example : sinceReset [.mark 1, .hyd [2, 3], .reset, .mark 4] = [4] := by decide
+-- rotation with more processed ids than the capacity leaves the filter advisory
+example : let c : Cfg := { size := 64, cap := 1, trust := true }
+    (run wpos c (init c) [.restart, .handle 1 .commitReturn false, .handle 2 .commitReturn false, .rotate]).bloom.auth = false := by decide
+
 end Stab.Props.C09
